@@ -888,6 +888,13 @@ func startKeepalive(session keepaliveSession, interval time.Duration, failureThr
 					"error", err,
 					"consecutiveFailures", consecutiveFailures,
 					"failureThreshold", failureThreshold)
+				if a, ok := session.(interface{ abort() }); ok {
+					// The peer is considered dead, so it will not answer the
+					// calls that are still outstanding either, and Close, being
+					// graceful, would wait for them. Closing the transport first
+					// makes them fail.
+					a.abort()
+				}
 				_ = session.Close()
 				return
 			}
